@@ -1,14 +1,73 @@
 package main
 
 import (
+	"fmt"
 	"go/token"
 	"go/types"
 
 	"golang.org/x/tools/go/ssa"
 )
 
+// tableCall resolves a call through a function value by case analysis over the functions
+// that can be its target (closed world over the repository: see funcCandidates).
 func (u *Unit) tableCall(st *State, instr ssa.Instruction, common *ssa.CallCommon, fv Term, args []Term) ([]Term, bool) {
-	return nil, false
+	sig := common.Signature()
+	cands := u.eng.funcCandidates(sig)
+	if len(cands) == 0 {
+		return nil, false
+	}
+	var cs []*Contract
+	for _, f := range cands {
+		c := u.eng.contractFor(f)
+		if c == nil || !c.Pure || len(f.FreeVars) > 0 {
+			return nil, false
+		}
+		cs = append(cs, c)
+	}
+	resTypes := resultTypes(sig)
+	var rs []Term
+	for i, t := range resTypes {
+		rs = append(rs, u.freshOf(st, fmt.Sprintf("r%d_dyn", i), t))
+	}
+	var ids []Term
+	for i, f := range cands {
+		c := cs[i]
+		id := u.funcValue(f)
+		ids = append(ids, eq(fv, id))
+		name := funcPkgPath(f) + "." + funcKey(f)
+		u.usedContracts[name] = true
+		ctxOf := func() *EvalCtx {
+			ctx := &EvalCtx{u: u, st: st, bound: map[string]bool{}, vars: map[string]Term{}}
+			ctx.pkg = calleePkg(f)
+			for j, p := range c.Params {
+				a := args[j]
+				a.T = f.Params[j].Type()
+				ctx.vars[p] = a
+			}
+			return ctx
+		}
+		for _, r := range c.Requires {
+			ctx := ctxOf()
+			g := ctx.eval(r.Expr)
+			u.oblige(st, "pre", instr.Pos(), implies(eq(fv, id), g), shortName(name)+" (via function value): "+r.Text, nil)
+		}
+		for _, e := range c.Ensures {
+			ctx := ctxOf()
+			for j, n := range c.Results {
+				t := rs[j]
+				t.T = resTypes[j]
+				ctx.vars[n] = t
+			}
+			g := ctx.eval(e.Expr)
+			for _, s := range ctx.side {
+				st.assume(s)
+			}
+			st.assume(implies(eq(fv, id), g))
+		}
+	}
+	st.assume(or(ids...))
+	u.note(fmt.Sprintf("%s: call through a %s value resolved over the %d repository functions of that signature whose value is taken", u.key, types.TypeString(common.Value.Type(), u.eng.qual), len(cands)))
+	return rs, true
 }
 func (u *Unit) lockEffects(st *State, c *Contract, name string, args []Term, pos token.Pos) {}
 func (u *Unit) guardedAccess(st *State, x *ssa.FieldAddr, structT types.Type, field int, r Term) {}
